@@ -61,6 +61,19 @@ def eval_call(ex, node, st):
     if not isinstance(func, ast.Attribute):
         raise OutsideSubset('call of computed function')
 
+    # ---- super().method(...) -------------------------------------------------
+    if isinstance(func.value, ast.Call) and isinstance(func.value.func, ast.Name) \
+       and func.value.func.id == 'super':
+        key = 'super.' + func.attr
+        eff = ex.spec.get('effects', {}).get(key) or ex.reg.effects.get(key)
+        if eff is not None:
+            return eff(ex, node, st)
+        tgt = ex.spec.get('calls', {}).get(key)
+        if isinstance(tgt, str):
+            return call_contract(ex, st, ex.reg.get(tgt), node)
+        raise OutsideSubset('call of super().%s (line %s): no contract'
+                            % (func.attr, ex.cur_line))
+
     # ---- module functions: m.floor, time.time, rps._task_state_value ... ------
     if chain and chain[0] not in st.env and chain[0] != 'self':
         if dotted in _MODFUNCS:
@@ -1190,6 +1203,10 @@ def call_method(ex, node, st):
                             recv.items.items()], True)
         if meth == 'as_dict':
             return recv
+        if meth == 'keys' and isinstance(rty, TRec):
+            # optional keys are modelled as None when absent: every declared
+            # key is enumerated
+            return PyTuple([lift(k) for k in rty.fields], True)
         if meth == 'update' and isinstance(recv, PyDict):
             other = pos_args(ex, node, st)[0]
             if isinstance(other, PyDict):
